@@ -12,16 +12,16 @@ def _lock_first_facts(ctx):
     sources on every run; a mismatch is a broken tie."""
     want = {
         "util/cacheutil/ttlcache.go": [
-            r"func \(c \*TTLCache\) Get\([^)]*\) \([^)]*\) \{",
-            r"func \(c \*TTLCache\) Add\([^)]*\) \([^)]*\) \{",
-            r"func \(c \*TTLCache\) Remove\([^)]*\) \{",
+            r"func \(c \*TTLCache\) Get\([^\n]*\{",
+            r"func \(c \*TTLCache\) Add\([^\n]*\{",
+            r"func \(c \*TTLCache\) Remove\([^\n]*\{",
             r"time\.AfterFunc\(c\.ttl, func\(\) \{",
             r"return func\(evict bool\) \{",
         ],
         "util/cacheutil/lrucache.go": [
-            r"func \(c \*LRUCache\) Get\([^)]*\) \([^)]*\) \{",
-            r"func \(c \*LRUCache\) Add\([^)]*\) \([^)]*\) \{",
-            r"func \(c \*LRUCache\) Remove\([^)]*\) \{",
+            r"func \(c \*LRUCache\) Get\([^\n]*\{",
+            r"func \(c \*LRUCache\) Add\([^\n]*\{",
+            r"func \(c \*LRUCache\) Remove\([^\n]*\{",
             r"return func\(\) \{",
         ],
     }
@@ -35,7 +35,7 @@ def _lock_first_facts(ctx):
         for h in heads:
             m = re.search(h + r"\s*\n\s*c\.mu\.Lock\(\)\s*\n\s*defer c\.mu\.Unlock\(\)\s*\n", src)
             if not m:
-                ctx.broken.append(f"fact:lock-first:{rel}:{h[:40]}")
+                ctx.broken.append(f"fact:lock-first:{rel}:{h[:32]}")
             else:
                 n += 1
     ctx.cov["facts_checked"] += n
